@@ -88,13 +88,20 @@ KINDS = [
          val=lambda t, n: set(_ints(t, n)), bad=lambda v: set(list(v)[:-1] + ["x"])),
     dict(name="Map", decl="Map[String, Integer]", tree=node("Map", LEAF, LEAF), flat="Map",
          val=lambda t, n: dict(zip(_strs(t, n), _ints(t, n))), bad=lambda v: dict(list(v.items())[:-1] + [("k", "x")])),
-    dict(name="AllOf", decl="AllOf[Integer, Number]", tree=node("AllOf", LEAF, LEAF), flat="AllOf", fixed=2,
+    dict(name="AllOf", wrapper=True, decl="AllOf[Integer, Number]", tree=node("AllOf", LEAF, LEAF), flat="AllOf", fixed=2,
          val=lambda t, n: 1000 * (t + 1), bad=lambda v: "x"),
-    dict(name="AnyOf", decl="AnyOf[Integer, String]", tree=node("AnyOf", LEAF, LEAF), flat="AnyOf", fixed=1, fixed_bad=2,
+    dict(name="AnyOf", wrapper=True, decl="AnyOf[Integer, String]", tree=node("AnyOf", LEAF, LEAF), flat="AnyOf", fixed=1, fixed_bad=2,
          val=lambda t, n: 1000 * (t + 1), bad=lambda v: 1.5),
-    dict(name="OneOf", decl="OneOf[Integer, String]", tree=node("OneOf", LEAF, LEAF),
+    dict(name="OneOf", wrapper=True, decl="OneOf[Integer, String]", tree=node("OneOf", LEAF, LEAF),
          val=lambda t, n: 1000 * (t + 1) if t % 2 == 0 else "s%d" % t, bad=lambda v: 1.5),
-    dict(name="NotField", decl="NotField[String]", tree=node("NotField", LEAF), val=lambda t, n: 1000 * (t + 1), bad=lambda v: "x"),
+    dict(name="NotField", wrapper=True, decl="NotField[String]", tree=node("NotField", LEAF), val=lambda t, n: 1000 * (t + 1), bad=lambda v: "x"),
+    # wrappers whose option is a collection (the option USES its name while it iterates)
+    dict(name="OneOf[Array]", decl="OneOf[Array[Integer], String]", tree=node("OneOf", node("Array.Each", LEAF), LEAF),
+         val=lambda t, n: _ints(t, n), bad=lambda v: v[:-1] + ["x"], wrapper=True),
+    dict(name="NotField[Array]", decl="NotField[Array[String]]", tree=node("NotField", node("Array.Each", LEAF)),
+         val=lambda t, n: _ints(t, n), bad=lambda v: ["s%d" % x for x in v], wrapper=True),
+    dict(name="OneOf[Tuple]", decl="OneOf[Tuple[Integer, String], Integer]", tree=node("OneOf", node("Tuple.Positional", LEAF, LEAF), LEAF),
+         fixed_n=2, val=lambda t, n: (1000 * (t + 1), "s%d" % t), bad=lambda v: (v[0], 5), wrapper=True),
     # nested
     dict(name="Array[Array]", decl="Array[Array[Integer]]", tree=node("Array.Each", node("Array.Each", LEAF)),
          val=lambda t, n: [_ints(t, 2, 10 * i) for i in range(n)], bad=lambda v: v[:-1] + [[v[-1][0], "x"]]),
@@ -574,7 +581,7 @@ def coq_classification(sa):
     return verdicts, racy, ""
 
 
-VERDICT_NAMES = {0: "SafePrivate", 1: "SafeIdempotent", 2: "Racy", 3: "CacheConst", 4: "Undecided"}
+VERDICT_NAMES = {0: "SafePrivate", 1: "SafeIdempotent", 2: "Racy", 3: "CacheConst", 4: "Undecided", 5: "Toggle"}
 
 
 # ------------------------------------------------------------------ traces for the correspondence
@@ -1256,7 +1263,8 @@ def run(rep, tier):
     for k in KINDS:
         for spec in op_tuples(tier):
             fresh = all(o in ("serialize", "fieldser") for o, _ in spec[:2])
-            tasks.append((k["name"], spec, bps, max_pre, cap, rnd.randrange(1 << 30), fresh))
+            kcap = max(cap, 1600) if k.get("wrapper") and len(spec) == 2 else cap
+            tasks.append((k["name"], spec, bps, max_pre, kcap, rnd.randrange(1 << 30), fresh))
     t0 = time.time()
     ctx = multiprocessing.get_context("fork")
     results = []
